@@ -7,8 +7,11 @@ From AV Require Import Lib.Base Lib.BytesX Generated.HttpGen Model.Http Proofs.H
 Open Scope N_scope.
 
 (* Retained bytes: after ANY sequence of reads that has not been rejected, the parser holds at most
-   one partial line within the line/field limits and at most max_headers complete lines, each
-   within the limits — for every byte stream, segmentation and limit configuration. *)
+   one partial line of at most limit + 1 bytes (the line/field limit, plus one for a CR that ends
+   the buffered part: it may be the first half of the line terminator and is not counted by the
+   length check, exactly as for a complete line; `bounded`, Proofs/HttpLimits.v) and at most
+   max_headers complete lines, each within the limits — for every byte stream, segmentation and
+   limit configuration. *)
 Theorem C10_retained_bound : forall lim o, max_queue lim = 0 ->
   forall segs s a lo0 s' a' lo,
     bounded lim s -> run_segs lim o s segs a lo0 = (s', a', ROk lo) -> bounded lim s'.
@@ -45,6 +48,14 @@ Example C10_example_limit :
 Proof. split; vm_compute; reflexivity. Qed.
 Print Assumptions C10_example_limit.
 
+(* the bound limit + 1 is attained: max_line = 9, "GET /aaaa" CR (10 bytes) is buffered; one more
+   byte that is not LF, and the 11 bytes are rejected *)
+Example C10_example_limit_cr :
+  (let '(s, a, r) := feed (mkLimits 9 9 4 0) [] init [71;69;84;32;47;97;97;97;97;13] [] in (r, lenN (tail s))) = (ROk [], 10) /\
+  snd (feed (mkLimits 9 9 4 0) [] init [71;69;84;32;47;97;97;97;97;13;97] []) = RErr ELineTooLong.
+Proof. split; vm_compute; reflexivity. Qed.
+Print Assumptions C10_example_limit_cr.
+
 (* ====================================================================================================
    RESPONSE parser (HttpResponseParser, lax mode).  Model: Model/HttpResp.v; proofs:
    Proofs/HttpRespLimits.v, HttpRespReject.v.  The result types of rfeed / rfeed_eof have exactly two
@@ -54,10 +65,12 @@ From AV Require Import Lib.Utf8Decode Generated.HttpRespGen Model.HttpResp
   Proofs.HttpRespBase Proofs.HttpRespChunk Proofs.HttpRespSeg Proofs.HttpRespLimits Proofs.HttpRespEx Proofs.HttpRespReject.
 
 (* Retained bytes: after ANY sequence of reads that has not been rejected the parser holds at most one
-   partial start/field line within the limits, at most max_headers complete lines each within the
-   limits, at most max_trailers (<= max_headers) trailer lines each within max_field_size, and a
-   partial chunk-size / trailer line of at most 2 * max(max_line, max_field) + (longest read) bytes
-   (its length is re-checked when the next read starts) - every stream, segmentation, configuration. *)
+   partial start/field line of at most max(max_line, max_field) + 1 bytes (the + 1: a CR that may be the
+   first half of the line terminator is buffered but not counted), at most max_headers complete lines
+   each within the limits, at most max_trailers (<= max_headers) trailer lines each within
+   max_field_size, and a partial chunk-size / trailer line of at most
+   2 * max(max_line, max_field) + 2 + (longest read) bytes (its length is re-checked when the next read
+   starts) - every stream, segmentation, configuration.  rbounded / rbig: Proofs/HttpRespLimits.v. *)
 Theorem C10_resp_retained_bound : forall cfg, max_queue (c_lim cfg) = 0 ->
   forall segs s a lo0 s' a' lo n,
     rwf s -> rbounded (c_lim cfg) n s -> rrun_segs cfg s segs a lo0 = (s', a', OOk lo) ->
@@ -80,12 +93,13 @@ Example C10_resp_retained_bound_hyps : rwf rinit /\ rbounded (mkLimits 16 8 4 0)
 Proof. exact ex_bounded_hyps. Qed.
 Print Assumptions C10_resp_retained_bound_hyps.
 
-(* A complete status line / field line whose content (trailing CRs removed) is longer than
-   max_line_size / max_field_size is rejected with LineTooLong, wherever the read boundaries fell. *)
+(* A complete status line / field line whose measured length (len1: its last CR is not counted, further
+   trailing CRs are) exceeds max_line_size / max_field_size is rejected with LineTooLong, wherever the
+   read boundaries fell. *)
 Theorem C10_resp_line_limit : forall cfg f s buf a raw rest,
   rpayload s = None -> rupgraded s = false -> max_queue (c_lim cfg) = 0 -> rshould_close s = false ->
   find_lf buf = Some (raw, rest) -> buf <> [] ->
-  match rlines s with [] => max_line (c_lim cfg) | _ => max_field (c_lim cfg) end < lenN (rstrip_cr raw) ->
+  match rlines s with [] => max_line (c_lim cfg) | _ => max_field (c_lim cfg) end < len1 raw ->
   rfeed_loop (S f) cfg s buf a = (s, a, OErr ELineTooLong).
 Proof. exact rheader_line_too_long. Qed.
 Print Assumptions C10_resp_line_limit.
@@ -93,7 +107,7 @@ Print Assumptions C10_resp_line_limit.
 Theorem C10_resp_header_count : forall cfg f s buf a raw rest,
   rpayload s = None -> rupgraded s = false -> max_queue (c_lim cfg) = 0 -> rshould_close s = false ->
   find_lf buf = Some (raw, rest) -> buf <> [] -> rlines s <> [] ->
-  lenN (rstrip_cr raw) <= max_field (c_lim cfg) -> max_headers (c_lim cfg) < lenN (rlines s) + 1 ->
+  len1 raw <= max_field (c_lim cfg) -> max_headers (c_lim cfg) < lenN (rlines s) + 1 ->
   rfeed_loop (S f) cfg s buf a = (s, a, OErr EBadMessage).
 Proof. exact rtoo_many_headers. Qed.
 Print Assumptions C10_resp_header_count.
